@@ -404,6 +404,8 @@ def check_out(ctx, c):
 
 RULE = RULE + " " + ('Since seeded round 4 facet one_cell_rhs (one-cell systems with reactions of order 0..3): make_dxdtf asked in two drawn unit systems on the two renderings, both against the reference law.')
 
+RULE = RULE + " " + ('Since seeded round 5 rendering B is also built from a system FILE (load_rdsystem(path, parent_units_system) and a script dictionary that names the file), with an explicit units declaration of the system moved to the parent; facet output_units_extreme compares the default units with the ends of the unit tables (fs, ps, h x km, fm x kmol, fmol) on slow kinetics, mostly with the stochastic engines; a Gillespie run that records only t = 0 in one unit system and more in the other is a violation (sample counts that differ otherwise are still skipped and counted).')
+
 FACETS = [
     Facet("system", check_system, strategy=strat_system, examples=(480, 8000), shards=(16, 16)),
     Facet("one_cell_rhs", check_system, strategy=strat_onecell, examples=(320, 6000), shards=(8, 16)),
